@@ -22,6 +22,18 @@ typedef unsigned int E_Token_stub;
 #define VERIF_UNC_STAGE_T unsigned int
 #endif
 namespace uncrustify { static const size_t line_end_styles = 3; }
+#ifndef VERIF_FS_H
+struct utimbuf { long actime; long modtime; };
+#endif
+// struct file_mem (src/uncrustify_types.h) with the real member names; containers renamed per D9
+struct file_mem                 //@struct
+{
+   vector_UINT8    raw;         //@f& struct vector_UINT8
+   deque_int       data;        //@f& struct deque_int
+   bool            bom;         //@f
+   char_encoding_e enc;         //@f unsigned int
+   struct utimbuf  utb;
+};
 struct cp_data_t                       //@struct
 {
    deque_UINT8       *bout;            //@f struct deque_UINT8 *
@@ -34,6 +46,9 @@ struct cp_data_t                       //@struct
 #ifdef VERIF_FS_H
    std::string       filename;         //@f& char ifdef=VERIF_FS_H
 #endif
+   file_mem          func_hdr;         //@f& struct file_mem
+   file_mem          oc_msg_hdr;       //@f& struct file_mem
+   file_mem          class_hdr;        //@f& struct file_mem
    size_t            lang_flags;       //@f
    bool              lang_forced;      //@f
    bool              unc_off;          //@f
@@ -59,6 +74,7 @@ struct cp_data_t                       //@struct
    bool              al_c99_array;     //@f
    bool              warned_unable_string_replace_tab_chars; //@f
    int               pp_level;         //@f
+   const char        *html_file;       //@f
 };
 cp_data_t cpd;
 #endif
